@@ -2,6 +2,8 @@ package tcp
 
 import (
 	"encoding/binary"
+	"errors"
+	"io"
 	"net"
 	"sync"
 
@@ -71,6 +73,9 @@ func (p *srvConn) LocalAddr() net.Addr  { return p.l }
 func (p *srvConn) RemoteAddr() net.Addr { return p.r }
 func (p *srvConn) Read(b []byte) (int, error) {
 	n, err := p.Conn.Read(b)
+	if errors.Is(err, io.ErrClosedPipe) {
+		err = net.ErrClosed // what a TCP connection closed locally reports
+	}
 	p.mu.Lock()
 	if n > 0 || err == nil {
 		p.reads = append(p.reads, rdRec{P: p.pos, A: len(b), G: n})
